@@ -8,6 +8,7 @@ from __future__ import annotations
 
 import ast
 import hashlib
+import json
 import os
 from dataclasses import dataclass, field
 from pathlib import Path
@@ -26,6 +27,74 @@ class AnalysisError(Exception):
     """The analysis cannot stand behind a verdict (exit code 2)."""
 
 
+def fingerprint(fnode, with_attrs=False):
+    """A digest of a function that survives a consistent renaming of the function, its parameters, its locals and the private
+    names it uses: docstring and annotations dropped, parameters / locals numbered by first appearance, private attribute and
+    private global names numbered likewise.  Used only to re-find an anchor that was renamed, never as a verdict."""
+    import copy
+    node = copy.deepcopy(fnode)
+    bound = {a.arg for a in node.args.posonlyargs + node.args.args + node.args.kwonlyargs}
+    if node.args.vararg:
+        bound.add(node.args.vararg.arg)
+    if node.args.kwarg:
+        bound.add(node.args.kwarg.arg)
+    for n in ast.walk(node):
+        if isinstance(n, ast.Name) and isinstance(n.ctx, (ast.Store, ast.Del)):
+            bound.add(n.id)
+        elif isinstance(n, ast.ExceptHandler) and n.name:
+            bound.add(n.name)
+    names, attrs = {}, {}
+
+    def nm(x):
+        return names.setdefault(x, f"v{len(names)}")
+
+    def at(x):
+        return attrs.setdefault(x, f"_a{len(attrs)}")
+
+    class T(ast.NodeTransformer):
+        def visit_FunctionDef(self, n):
+            n.name = "f" if n is node else nm(n.name)
+            n.returns = None
+            n.decorator_list = [d for d in n.decorator_list if not (isinstance(d, ast.Name) and d.id == "log_call")]
+            if n.body and isinstance(n.body[0], ast.Expr) and isinstance(n.body[0].value, ast.Constant) and isinstance(n.body[0].value.value, str):
+                n.body = n.body[1:] or [ast.Pass()]
+            self.generic_visit(n)
+            return n
+
+        def visit_arg(self, n):
+            n.arg = nm(n.arg)
+            n.annotation = None
+            return n
+
+        def visit_AnnAssign(self, n):
+            self.generic_visit(n)
+            return ast.Assign(targets=[n.target], value=n.value) if n.value is not None else ast.Pass()
+
+        def visit_Name(self, n):
+            if n.id in bound or (n.id.startswith("_") and not n.id.startswith("__")):
+                n.id = nm(n.id)
+            return n
+
+        def visit_Attribute(self, n):
+            self.generic_visit(n)
+            if n.attr.startswith("_") and not n.attr.startswith("__"):
+                n.attr = at(n.attr)
+            return n
+
+        def visit_ExceptHandler(self, n):
+            if n.name:
+                n.name = nm(n.name)
+            self.generic_visit(n)
+            return n
+
+        def visit_keyword(self, n):
+            self.generic_visit(n)
+            return n
+    T().visit(node)
+    digest = hashlib.sha1(ast.dump(node, annotate_fields=False, include_attributes=False).encode()).hexdigest()[:16]
+    return (digest, list(attrs)) if with_attrs else digest
+
+
 class Abort(Exception):
     """A violation was reported that makes the rest of this property's rules meaningless (the analysed effect is absent): stop, keep
     the report (exit code 1 through the reported violation)."""
@@ -39,10 +108,11 @@ class FuncInfo:
     module: "Mod"
     cls: Optional["ClassInfo"] = None
     decorators: list = field(default_factory=list)
+    home: Optional[str] = None  # module name the qualified name is given under, when it differs from the defining module (class-body alias)
 
     @property
     def fq(self) -> str:
-        return f"{self.module.name}:{self.qualname}"
+        return f"{self.home or self.module.name}:{self.qualname}"
 
     @property
     def kind(self) -> str:
@@ -101,6 +171,7 @@ class Mod:
         self.functions: dict = {}  # qualname -> FuncInfo
         self.assigns: dict = {}  # module-level NAME = expr (last wins)
         self.all_assign_stmts: list = []  # every module-level Assign/AugAssign stmt
+        self.method_aliases: list = []  # (class, name, expr, 'staticmethod' | 'classmethod') for `name = staticmethod(f)` in a class body
         self._index()
 
     def __repr__(self):
@@ -139,10 +210,15 @@ class Mod:
 
     def _index_class(self, n: ast.ClassDef, outer: Optional[FuncInfo] = None, prefix: str = ""):
         ci = ClassInfo(n.name, n, self, bases=list(n.bases), decorators=self._dec_names(n), outer=outer)
+        ci.prefix = prefix
         for s in n.body:
             if isinstance(s, ast.Assign) and len(s.targets) == 1 and isinstance(s.targets[0], ast.Name):
                 ci.attrs[s.targets[0].id] = s.value
                 ci.attr_nodes[s.targets[0].id] = s
+                v = s.value
+                if isinstance(v, ast.Call) and isinstance(v.func, ast.Name) and v.func.id in ("staticmethod", "classmethod") and len(v.args) == 1 \
+                        and isinstance(v.args[0], (ast.Name, ast.Attribute)):
+                    self.method_aliases.append((ci, s.targets[0].id, v.args[0], v.func.id))  # name = staticmethod(other_function)
             elif isinstance(s, ast.AnnAssign) and isinstance(s.target, ast.Name) and s.value is not None:
                 ci.attrs[s.target.id] = s.value
                 ci.attr_nodes[s.target.id] = s
@@ -193,6 +269,32 @@ class Mod:
                 self.all_assign_stmts.append(n)
 
 
+_FPS: list = []
+
+
+def known_fingerprints() -> dict:
+    """{qualified name: fingerprint} of the functions that existed when the rules were confirmed (reference/known_functions.json)."""
+    if not _FPS:
+        f = Path(__file__).resolve().parent.parent / "reference" / "known_functions.json"
+        d = json.loads(f.read_text()) if f.is_file() else {}
+        if not isinstance(d, dict):
+            d = {k: "" for k in d}
+        _FPS.append({k: (v.get("fp", "") if isinstance(v, dict) else v) for k, v in d.items()})
+        _FPS.append({k: (v.get("params") if isinstance(v, dict) else None) for k, v in d.items()})
+        _FPS.append({k: (v.get("attrs") if isinstance(v, dict) else None) for k, v in d.items()})
+    return _FPS[0]
+
+
+def known_attrs() -> dict:
+    known_fingerprints()
+    return _FPS[2]
+
+
+def known_params() -> dict:
+    known_fingerprints()
+    return _FPS[1]
+
+
 class Repo:
     """All analysed modules of one working tree."""
 
@@ -213,7 +315,7 @@ class Repo:
                 raise AnalysisError(f"package directory {pkg}/ vanished")
             for p in sorted(pdir.rglob("*.py")):
                 rel = p.relative_to(self.root).as_posix()
-                if "/__pycache__/" in rel or rel.endswith("_version.py"):
+                if "/__pycache__/" in rel or rel == "suit_generator/_version.py":  # the file generated by setuptools_scm
                     continue
                 name = rel[:-3].replace("/", ".")
                 if name.endswith(".__init__"):
@@ -228,6 +330,25 @@ class Repo:
             if (self.root / d).is_dir():
                 self.not_consulted.append(d + "/")
         self.not_consulted.append("setup.py")
+        # private functions the rules know by name that were renamed: re-found by structure, known again under the old name
+        for k in known_fingerprints():
+            mn, qn = k.split(":", 1)
+            if mn in self.modules and qn not in self.modules[mn].functions and qn.rsplit(".", 1)[-1].startswith("_") \
+                    and not qn.rsplit(".", 1)[-1].startswith("__"):
+                bare = qn.rsplit(".", 1)[-1]
+                if not any(q.rsplit(".", 1)[-1] == bare for m_ in self.modules.values() for q in m_.functions):
+                    self._renamed(mn, qn)
+        self.renamed_attrs: dict = {}
+        self._normalise_renames()
+        # a method given as `name = staticmethod(function defined elsewhere)` is a method of the class
+        for m in list(self.modules.values()):
+            for ci, name, expr, kind in m.method_aliases:
+                r = self.resolve_expr(m, expr)
+                if r and r[0] == "func" and name not in ci.methods:
+                    t = r[1]
+                    fi = FuncInfo(name, f"{getattr(ci, 'prefix', '')}{ci.name}.{name}", t.node, t.module, cls=ci, decorators=[kind], home=m.name)
+                    ci.methods[name] = fi
+                    m.functions.setdefault(fi.qualname, fi)
 
     # -- lookups -----------------------------------------------------------
     def mod(self, name: str) -> Mod:
@@ -238,6 +359,11 @@ class Repo:
     def cls(self, modname: str, clsname: str) -> ClassInfo:
         m = self.mod(modname)
         if clsname not in m.classes:
+            # moved into another module and imported back under the same name
+            r = self.resolve_name(m, clsname) if "." not in clsname else None
+            if r and r[0] == "class":
+                self.relocated[f"{modname}:{clsname}"] = r[1].fq
+                return r[1]
             raise AnalysisError(f"anchor class {modname}:{clsname} vanished")
         return m.classes[clsname]
 
@@ -254,14 +380,132 @@ class Repo:
         """A private helper that moved (method -> module level, another class, another module) keeps its name: when exactly one
         function of the analysed program still carries the bare name of a vanished anchor, that function is the anchor."""
         bare = qualname.rsplit(".", 1)[-1]
+        m = self.modules[modname]
+        # the function, or the class of the method, moved into another module and is imported back under the same name
+        if "." not in qualname:
+            r = self.resolve_name(m, qualname)
+            if r and r[0] == "func":
+                self.relocated[f"{modname}:{qualname}"] = r[1].fq
+                return r[1]
+        elif qualname.count(".") == 1 and qualname.split(".")[0] not in m.classes:
+            r = self.resolve_name(m, qualname.split(".")[0])
+            if r and r[0] == "class" and bare in r[1].methods:
+                self.relocated[f"{modname}:{qualname}"] = r[1].methods[bare].fq
+                return r[1].methods[bare]
         if not bare.startswith("_") or bare.startswith("__"):
             return None  # public and special names (from_obj, to_cbor, __init__ ...) are shared by many classes
         same = [f for q, f in self.modules[modname].functions.items() if q.rsplit(".", 1)[-1] == bare]
         cands = same or [f for m in self.modules.values() for q, f in m.functions.items() if q.rsplit(".", 1)[-1] == bare]
         if len(cands) != 1:
-            return None
+            return self._renamed(modname, qualname) if not cands else None
         self.relocated[f"{modname}:{qualname}"] = f"{cands[0].module.name}:{cands[0].qualname}"
         return cands[0]
+
+    @staticmethod
+    def _params_back(f: FuncInfo, old_params):
+        """Give a structurally unchanged function the parameter names the rules were written against (in a copy of its tree)."""
+        new_params = f.params()
+        if not old_params or len(old_params) != len(new_params) or old_params == new_params:
+            return
+        back = {n_: o_ for n_, o_ in zip(new_params, old_params) if n_ != o_}
+        used = {n.id for n in ast.walk(f.node) if isinstance(n, ast.Name)} | {a.arg for a in ast.walk(f.node) if isinstance(a, ast.arg)}
+        if any(o in used and o not in new_params for o in back.values()):
+            return
+        import copy
+        node = copy.deepcopy(f.node)
+        for n in ast.walk(node):
+            if isinstance(n, ast.Name) and n.id in back:
+                n.id = back[n.id]
+            elif isinstance(n, ast.arg) and n.arg in back:
+                n.arg = back[n.arg]
+        f.node = node
+        f.kw_alias = back
+
+    def _normalise_renames(self):
+        """Undo consistent renamings of private attributes and of parameters: a function whose fingerprint equals the recorded one
+        differs from the recorded function only in such names, so position by position its private attribute names (and its
+        parameters) are the recorded ones under another spelling.  The renaming is applied to copies of the syntax trees (line
+        numbers kept), so that the rules see the names they were written against; a name is only mapped when every function
+        that votes agrees, the old name is gone from the program and the new name was not known before."""
+        ref_fp, ref_params, ref_attrs = known_fingerprints(), known_params(), known_attrs()
+        votes: dict = {}
+        for fq_, fp_ in ref_fp.items():
+            mn, qn = fq_.split(":", 1)
+            f = self.modules[mn].functions.get(qn) if mn in self.modules else None
+            if f is None or not fp_:
+                continue
+            got_fp, got_attrs = fingerprint(f.node, with_attrs=True)
+            if got_fp != fp_:
+                continue
+            self._params_back(f, ref_params.get(fq_))
+            old_attrs = ref_attrs.get(fq_) or []
+            if len(old_attrs) == len(got_attrs):
+                for new_, old_ in zip(got_attrs, old_attrs):
+                    if new_ != old_:
+                        votes.setdefault(new_, set()).add(old_)
+        if not votes:
+            return
+        present = set()
+        for m in self.modules.values():
+            for n in ast.walk(m.tree):
+                if isinstance(n, ast.Attribute):
+                    present.add(n.attr)
+                elif isinstance(n, ast.Name):
+                    present.add(n.id)
+        known_names = {a for al in ref_attrs.values() for a in (al or [])}
+        mapping = {new_: next(iter(olds)) for new_, olds in votes.items() if len(olds) == 1}
+        mapping = {n_: o_ for n_, o_ in mapping.items() if o_ not in present and n_ not in known_names
+                   and list(mapping.values()).count(o_) == 1}
+        if not mapping:
+            return
+        self.renamed_attrs = dict(mapping)
+        import copy
+        seen = set()
+        for m in self.modules.values():
+            for f in list(m.functions.values()):
+                if id(f) in seen:
+                    continue
+                seen.add(id(f))
+                if any(isinstance(n, ast.Attribute) and n.attr in mapping for n in ast.walk(f.node)):
+                    node = copy.deepcopy(f.node)
+                    for n in ast.walk(node):
+                        if isinstance(n, ast.Attribute) and n.attr in mapping:
+                            n.attr = mapping[n.attr]
+                    f.node = node
+            for c in m.classes.values():
+                for new_, old_ in mapping.items():
+                    if new_ in c.attrs and old_ not in c.attrs:
+                        c.attrs[old_] = c.attrs.pop(new_)
+                        c.attr_nodes[old_] = c.attr_nodes.pop(new_)
+
+    def _renamed(self, modname: str, qualname: str) -> Optional[FuncInfo]:
+        """A private function that was renamed (with its parameters, locals and the private names it uses) keeps its structure:
+        the only function of the program - not itself a function the rules know by name - whose fingerprint equals the one recorded
+        for the vanished anchor in reference/known_functions.json is the anchor."""
+        fps = known_fingerprints()
+        want = fps.get(f"{modname}:{qualname}")
+        if not want:
+            return None
+        cands = [f for m in self.modules.values() for f in m.functions.values() if f.fq not in fps and fingerprint(f.node) == want]
+        if len({id(f.node) for f in cands}) != 1:
+            return None
+        f = cands[0]
+        self.relocated[f"{modname}:{qualname}"] = f.fq
+        # from here on the function is known under the name (and with the parameter names) the rules were written against: the
+        # same FuncInfo is registered under both names, its parameters renamed back in a copy of its syntax tree
+        self._params_back(f, known_params().get(f"{modname}:{qualname}"))
+        new_name = f.name
+        # classes defined inside the function stay reachable under the function's restored name
+        for k_, c_ in list(f.module.classes.items()):
+            if k_.startswith(f.qualname + ".<locals>."):
+                f.module.classes.setdefault(qualname + k_[len(f.qualname):], c_)
+        f.name, f.qualname = qualname.rsplit(".", 1)[-1], qualname
+        f.home = modname if f.module.name != modname else None
+        self.modules[modname].functions[qualname] = f
+        if f.cls is not None:
+            f.cls.methods.setdefault(f.name, f)
+            f.cls.methods[new_name] = f
+        return f
 
     def find_func(self, modname: str, qualname: str) -> Optional[FuncInfo]:
         m = self.modules.get(modname)
